@@ -32,7 +32,7 @@ fn digit_patterns(h: usize, rng: &mut Rng, nrand: usize) -> Vec<u64> {
     v
 }
 
-fn codec_event(c: &A5Cell) -> Value {
+pub fn codec_event(c: &A5Cell) -> Value {
     let ser = catch(|| serialize(c));
     let (ser_ok, id) = match &ser {
         Ok(Ok(id)) => (true, *id),
@@ -53,7 +53,7 @@ fn codec_event(c: &A5Cell) -> Value {
            "deser_ok": deser_ok, "cell2": cell_json(&cell2), "reser_ok": reser_ok, "id2": quads(id2)})
 }
 
-fn decode_event(id: u64) -> Value {
+pub fn decode_event(id: u64) -> Value {
     let res = catch(|| a5::get_resolution(id)).unwrap_or(-99);
     let des = catch(|| deserialize(id));
     let (deser_ok, cell) = match &des {
@@ -72,7 +72,7 @@ fn decode_event(id: u64) -> Value {
            "reser_ok": reser_ok, "id2": quads(id2)})
 }
 
-fn hexfmt_event(v: u64) -> Value {
+pub fn hexfmt_event(v: u64) -> Value {
     let s = a5::u64_to_hex(v);
     let back = catch(|| a5::hex_to_u64(&s));
     let (ok, b) = match back {
@@ -255,7 +255,7 @@ fn ancestors(id: u64, r: i32) -> Vec<u64> {
     (1..=r).map(|k| a5::cell_to_parent(id, Some(k)).unwrap_or(u64::MAX)).collect()
 }
 
-fn ancpair_event(a: u64, b: u64, r: i32, depth: i32) -> Value {
+pub fn ancpair_event(a: u64, b: u64, r: i32, depth: i32) -> Value {
     let (a, b) = if a <= b { (a, b) } else { (b, a) };
     let has_desc = a != b && r + depth <= 29 && depth > 0;
     let (mx, mn) = if has_desc {
@@ -393,7 +393,7 @@ pub fn gen_c20(tier: &str, seed: u64, out: &str) -> Value {
 
 // ---------------------------------------------------------------- C07
 
-fn children_event(id: u64, target: Option<i32>) -> Value {
+pub fn children_event(id: u64, target: Option<i32>) -> Value {
     let r = res_of(id);
     let tr = target.unwrap_or(r + 1);
     let res = catch(|| a5::cell_to_children(id, target));
@@ -407,7 +407,7 @@ fn children_event(id: u64, target: Option<i32>) -> Value {
            "list": quads_list(&list), "parents": quads_list(&parents), "ress": ress})
 }
 
-fn parentcomp_event(c: u64, a: i32, b: i32) -> Value {
+pub fn parentcomp_event(c: u64, a: i32, b: i32) -> Value {
     let pa = catch(|| a5::cell_to_parent(c, Some(a))).ok().and_then(|x| x.ok());
     let pb = catch(|| a5::cell_to_parent(c, Some(b))).ok().and_then(|x| x.ok());
     let pab = pa.and_then(|p| catch(|| a5::cell_to_parent(p, Some(b))).ok().and_then(|x| x.ok()));
@@ -415,7 +415,7 @@ fn parentcomp_event(c: u64, a: i32, b: i32) -> Value {
            "pa": quads(pa.unwrap_or(0)), "pb": quads(pb.unwrap_or(0)), "pab": quads(pab.unwrap_or(0))})
 }
 
-fn childcomp_event(c: u64, m: i32, r2: i32) -> Value {
+pub fn childcomp_event(c: u64, m: i32, r2: i32) -> Value {
     let mut ok = true;
     let direct = a5::cell_to_children(c, Some(r2)).unwrap_or_else(|_| { ok = false; vec![] });
     let mid = a5::cell_to_children(c, Some(m)).unwrap_or_else(|_| { ok = false; vec![] });
